@@ -125,9 +125,11 @@ def numCls (s : Str) : Cls :=
 
 def colCls (s : Str) : Cls :=
   let ps := splitOn ',' s
-  let ts := ps.map trimBlanks
-  if ts.length = 4 ∧ ts.all (fun t => match rd t with | some b => unitOk b | none => false) then
-    if ps.all numeral then .legal else .odd
+  let okp (l : List Str) : Bool :=
+    decide (l.length = 4) && l.all (fun t => match rd t with | some b => unitOk b | none => false)
+  -- four plain numerals in range: legal as they stand; the same after trimming blanks: not asserted
+  if ps.all numeral && okp ps then .legal
+  else if okp (ps.map trimBlanks) then .odd
   else .bad
 
 /-- code points: hex digits only, a Unicode scalar value -/
@@ -366,6 +368,9 @@ def dedup : List String → List String
   | [] => []
   | x :: r => if r.contains x then dedup r else x :: dedup r
 
+/-- the elements that may occur at most once in a glyph -/
+def onceOnly : List String := ["advance", "outline", "lib", "note", "image"]
+
 /-- all rules broken by the document, and whether something in it is not asserted either way -/
 def judge (d : Doc) : List String × Bool :=
   let (ver?, verOdd) := docVersion d
@@ -374,7 +379,7 @@ def judge (d : Doc) : List String × Bool :=
   | none => (dedup (g ++ (if verOdd then [] else ["version"])), verOdd)
   | some ver =>
     let per := merge (d.items.map (itemCheck rd ver))
-    let dups := ["advance", "outline", "lib", "note", "image"].filterMap fun n =>
+    let dups := onceOnly.filterMap fun n =>
       if countName d n.toList > 1 then some ("dup-" ++ n) else none
     let ids := if hasDup (docIdents d) then ["ident-dup"] else []
     (dedup (g ++ per.1 ++ dups ++ ids ++ objectLibsCheck d), per.2 || !d.trailer.isEmpty)
